@@ -194,6 +194,6 @@ def finalize(agg, tier):
                 "is non-trivial when it could be compared step by step and was identical; positions are distinct by "
                 "construction",
         "floors": {"histories": 100, "position_resolve_same_object": 100, "position_fresh_after_other": 150,
-                   "position_after_raise": 80, "default_params_runs": 10},
+                   "position_after_raise": 80, "default_params_runs": 5},
         "assumptions": ["bit-identical comparison of every trial record, status, counters, x, y, d, dist_factor"],
     }
